@@ -21,7 +21,7 @@ SPEC = dict(
         "transition; non-trivial = distinct transitions that are a torchjd call on a state where at least one requested .grad "
         "already exists (accumulation rather than creation)"
     ),
-    bound=dict(quick="10 programs x 2 initial states (all None / arbitrary content) x all histories of <= 4 events", thorough="<= 5 events"),
+    bound=dict(quick="10 programs x 2 initial states (all None / arbitrary content) x all histories of <= 4 events", thorough="<= 6 events"),
     assumptions=[
         "graphs without retain_grad() tensors; deterministic aggregators (Constant, Mean, UPGrad)",
         "the graph is retained (retain_graph=True) so that calls can be repeated; freed-graph behaviour is C13",
@@ -35,7 +35,7 @@ DETERMINISM_SLICE = 4
 
 
 def gen_cases(tier, seed):
-    depth = 4 if tier == "quick" else 5
+    depth = 4 if tier == "quick" else 6
     cases = []
     for prog in PROGRAMS:
         for init in ("none", "content"):
